@@ -503,8 +503,13 @@ func progScenario(kind string, decos []string, method string) func() {
 			b = b.WithTask(func() error { vsched.Yield("task"); *done = true; return nil })
 			data, err = b.ToByteSlice(100)
 		}
-		// Completion never precedes task completion.
+		// Completion never precedes task completion. Only a method that consumed the object reports completion;
+		// Discard, GetSizeBytes, an early Close or a consumer refused for its size limit return at once, and with a
+		// stream clone below them the task then still waits for the other clone's consumer.
 		for i, d := range st.pendingTasks {
+			if !wholeObject {
+				break
+			}
 			if !*d {
 				vsched.Fail("prog:completion-before-task", "method %s returned before background task %d finished (kind %s, decorators %v)", method, i, kind, decos)
 			}
